@@ -89,9 +89,10 @@ class RxBench:
     is abandoned and `tail` is run instead.
     """
 
-    def __init__(self):
+    def __init__(self, buffer_count=4, downstream_facing=False):
+        self.buffer_count, self.downstream_facing = buffer_count, downstream_facing
         use_repo()
-        from amaranth import Elaboratable, Module
+        from amaranth import Elaboratable, Module, ClockDomain
         from amaranth.sim import Simulator
         from luna.gateware.usb.usb3.link.receiver import HeaderPacketReceiver
         from luna.gateware.usb.usb3.link.command import LinkCommandDetector
@@ -99,12 +100,14 @@ class RxBench:
 
         class RxDut(Elaboratable):
             def __init__(self):
-                self.rx = HeaderPacketReceiver()
+                self.rx = HeaderPacketReceiver(buffer_count=buffer_count, downstream_facing=downstream_facing)
+                self.cd = ClockDomain("ss")
                 self.det = LinkCommandDetector()
                 self.sink = USBRawSuperSpeedStream()
 
             def elaborate(self, platform):
                 m = Module()
+                m.domains.ss = self.cd              # explicit, so that the domain reset can be driven
                 m.submodules.rx = self.rx
                 m.submodules.det = self.det
                 m.d.comb += [
@@ -698,7 +701,7 @@ def _rx_nontriv(rep, trace):
             rep.nontriv((e, r.get("reset", None)))
 
 
-def _rx_validate(rep, items, what_prefix):
+def _rx_validate(rep, items, what_prefix, nbuf=4, kacmd=8):
     """items: [(trace, meta)] -> TLC verdicts via validate_group (header table passed in HDR_FILE)."""
     import json
     if not items:
@@ -708,7 +711,7 @@ def _rx_validate(rep, items, what_prefix):
         hf = os.path.join(d, "hdrs.json")
         with open(hf, "w") as f:
             json.dump(table, f)
-        cfg = tlc.render_cfg(_cfg("SsRxTrace.cfg.tmpl"), {"NBuf": 4})
+        cfg = tlc.render_cfg(_cfg("SsRxTrace.cfg.tmpl"), {"NBuf": nbuf, "KaCmd": kacmd})
         return validate_group(rep, SPEC_DIR, "SsRxTrace", cfg, prepared, classify=rx_classify,
                               what_prefix=what_prefix, env={"HDR_FILE": hf})
 
